@@ -240,6 +240,15 @@ def symKeyed : Sigma → Bool
   | (.sym _, _) :: t => symKeyed t
   | _ => false
 
+/-- every key is a `Symbol` or an Integer / Rational literal: the model mirrors the visitor exactly on such maps
+(number keys are looked up at the Add constant, the term coefficients, the Mul coefficient, exponents and leaves) -/
+def simpleKeyed : Sigma → Bool
+  | [] => true
+  | (.sym _, _) :: t => simpleKeyed t
+  | (.int _, _) :: t => simpleKeyed t
+  | (.rat _ _, _) :: t => simpleKeyed t
+  | _ => false
+
 /-- a complex number key (`I`) triggers `bvisit(const ComplexBase &)`, which is not modelled -/
 def hasCplxKey : Sigma → Bool
   | [] => false
@@ -274,7 +283,7 @@ def judgeNF (pure pure' : Bool) (r d : Expr) : Verdict :=
   | _, some err => .skip ("model-" ++ err.toString)
   | none, none =>
     if NF.equivF (NF.normT r) (NF.normT d) then .ok
-    else if pure && pureRat r then .fail "value-differs"
+    else if pure && pureRat r && pureRat d then .fail "value-differs"
     else if pure' && Diff.comparable (NF.normT r) (NF.normT d) then .fail "same-atoms-value-differs"
     else .skip "atoms-differ"
 
@@ -285,7 +294,7 @@ def judge (pp cache : Bool) (σ : Sigma) (e r : Expr) : Verdict :=
   | some h => .skip ("unsupported-" ++ h)
   | none =>
     if hasCplxKey σ then .skip "complex-key" else
-    judgeNF (symKeyed σ && pureRat e && pureSigma σ) (symKeyed σ) r
+    judgeNF (simpleKeyed σ && pureRat e && pureSigma σ) (simpleKeyed σ) r
       (if cache then subsCached pp σ e else subsE pp σ e)
 
 end Subs
